@@ -29,6 +29,8 @@ def run_family(c, rec):
     import cuqi
     fam, mode, n = c["fam"], c["mode"], c["dim"]
     tags = {"fam": fam, "mode": mode, "multi": n > 1}
+    if c.get("magnitude"):
+        tags["magnitude"] = c["magnitude"]
     if rec.classify(tags, n > 1 or mode != "vector"):
         return
     conditional = mode == "callable"
@@ -44,7 +46,7 @@ def run_family(c, rec):
     x = ref.inside(c["raw"])
     x2 = ref.inside(c["raw2"])
     want = ref.logpdf(x)
-    if not np.isfinite(want) or abs(want) > 600:
+    if not np.isfinite(want) or abs(want) > 1e7:
         rec.inconc("reference_out_of_range")
         return
     refused, got = refuses(lambda: d.logpdf(x.copy()))
@@ -58,8 +60,9 @@ def run_family(c, rec):
     if ref.normalised():
         require(close(_f(got), want, 1e-9), f"{fam}.logpdf differs from the documented normalised density (mode={mode}, dim={n})",
                 got=_f(got), want=want)
-        pdf = must(lambda: d.pdf(x.copy()), "pdf")
-        require(close(_f(pdf), np.exp(want), 1e-9), f"{fam}.pdf != exp(logpdf)")
+        if abs(want) < 600:
+            pdf = must(lambda: d.pdf(x.copy()), "pdf")
+            require(close(_f(pdf), np.exp(want), 1e-9), f"{fam}.pdf != exp(logpdf)")
     want2 = ref.logpdf(x2)
     got2 = _f(d.logpdf(x2.copy()))
     require(close(_f(got) - got2, want - want2, 1e-8), f"{fam}: log-density differences differ from the documented kernel",
@@ -719,7 +722,7 @@ def run_uniform(c, rec):
 SUBCHECKS = [
     SubCheck("C04/uniform_volume", run_uniform, strategy=uniform_cases, n={"quick": 300, "thorough": 3000}, shards={"quick": 2, "thorough": 4}),
     SubCheck("C04/conditional_siblings", run_siblings, strategy=sibling_cases, n={"quick": 800, "thorough": 15000}, shards={"quick": 4, "thorough": 16}),
-    SubCheck("C04/families", run_family, strategy=lambda tier: dists.family_spec(max_dim=5 if tier == "quick" else 9),
+    SubCheck("C04/families", run_family, strategy=lambda tier: dists.family_spec(max_dim=5 if tier == "quick" else 9, magnitudes=True),
              n={"quick": 3000, "thorough": 60000}, shards={"quick": 4, "thorough": 16}),
     SubCheck("C04/cdf", run_cdf, strategy=lambda tier: dists.family_spec(families=["Normal", "Cauchy", "Gamma", "InverseGamma", "Beta"],
                                                                          modes=("vector", "scalar", "list")),
